@@ -58,6 +58,10 @@ type Analyzer struct {
 	Obs       []Obligation
 	fns       []*ssa.Function
 	seeded    map[*ssa.Parameter]bool
+	// paramTracked: some call site passes a tracked (command-derived or otherwise length-tracked) value;
+	// untrackedArg: number of call-site arguments the analysis could not track
+	paramTracked map[*ssa.Parameter]bool
+	untrackedArg map[*ssa.Parameter]int
 }
 
 func isStrSlice(t types.Type) bool {
@@ -92,7 +96,7 @@ func isCommandField(v ssa.Value) bool {
 			return false
 		}
 		st := x.X.Type().Underlying().(*types.Struct)
-		return st.Field(x.Field).Name() == "Command"
+		return world.CanonField(st.Field(x.Field)) == "Command"
 	}
 	return false
 }
@@ -518,7 +522,7 @@ func (a *Analyzer) run(fn *ssa.Function, record bool) {
 		if iff == nil {
 			return st
 		}
-		if r, tm, fm, ok := a.cond(fn, iff.Cond); ok {
+		if r, tm, fm, ok := a.cond(fn, world.CondValue(iff)); ok {
 			st = st.clone()
 			m := a.get(fn, st, r)
 			if si == 0 {
@@ -597,6 +601,14 @@ func (a *Analyzer) run(fn *ssa.Function, record bool) {
 		for _, ins := range b.Instrs {
 			need := func(t tv, minLen int, what string) {
 				if !record {
+					return
+				}
+				// a helper parameter that only ever receives values the analysis does not track (slices
+				// of stored data, ...) is data, not the command: its indices are value-level
+				if pr, isP := t.r.(*ssa.Parameter); isP && !a.seeded[pr] && a.untrackedArg[pr] > 0 {
+					if record {
+						a.Obs = append(a.Obs, Obligation{Fn: fn, In: ins, What: a.rootName(t) + what, Decide: false})
+					}
 					return
 				}
 				m := a.get(fn, st, t.r)
@@ -721,6 +733,14 @@ func (a *Analyzer) run(fn *ssa.Function, record bool) {
 						var m uint32 = ALL
 						if t, ok := a.track(arg); ok {
 							m = shift(a.get(fn, st, t.r), t.off)
+							if pr, isP := t.r.(*ssa.Parameter); !isP || a.paramTracked[pr] || a.seeded[pr] || a.untrackedArg[pr] == 0 {
+								if !a.paramTracked[p] {
+									a.paramTracked[p] = true
+									a.changed = true
+								}
+							}
+						} else {
+							a.untrackedArg[p]++
 						}
 						old, had := a.paramMask[p]
 						if !had || old|m != old {
@@ -831,7 +851,7 @@ func MaskString(m uint32) string {
 // called by the authorization layer.
 func Run(w *world.World, handlers map[*ssa.Function]uint32, keyFuncs map[*ssa.Function]uint32) *Analyzer {
 	a := &Analyzer{W: w, paramMask: map[*ssa.Parameter]uint32{}, fvMask: map[*ssa.FreeVar]uint32{}, keySum: map[*ssa.Function]uint32{},
-		entry: handlers, fixedLen: map[ssa.Value]int{}, retMask: map[*ssa.Function]uint32{}, seeded: map[*ssa.Parameter]bool{}}
+		entry: handlers, fixedLen: map[ssa.Value]int{}, retMask: map[*ssa.Function]uint32{}, seeded: map[*ssa.Parameter]bool{}, paramTracked: map[*ssa.Parameter]bool{}, untrackedArg: map[*ssa.Parameter]int{}}
 	for _, fn := range w.ModFns {
 		pos := w.Pos(fn.Pos())
 		if strings.Contains(pos, "_test.go") || strings.Contains(pos, "volumes/") || strings.Contains(pos, "test_helpers") {
